@@ -401,7 +401,60 @@ def check_reject(ctx, idx):
     ctx.nontrivial(['reject', idx])
 
 
+def snapshot(lib):
+    out = []
+    for g in sorted(lib, key=str):
+        th = lib[g].get('thermochem')
+        if th is None:
+            out.append((str(g), None))
+            continue
+        out.append((str(g), repr(th.ND_H_ref), repr(th.ND_S_ref),
+                    sorted((repr(float(t)), repr(float(v)))
+                           for t, v in (th.ND_Cp_data or {}).items()),
+                    repr(th.T_ref), repr(th.get_range())))
+    return repr(out)
+
+
+def check_threads(ctx, key=None, rounds=3):
+    """What a file loads as depends on that file only: several files -- each
+    with its own default-unit block, one with none and a unit-less
+    dimensional value (to be rejected) -- loaded from several threads at
+    once give what each gives when loaded alone."""
+    from vmon.core import threads as TH
+    key = key or 'thr%d_%d' % (ctx.seed, ctx.shard)
+    rng = random.Random('c12thr:%s' % key)
+    texts = []
+    for i in range(6):
+        groups = abstract_library(rng)
+        block, pres, weight = presentation(rng, 'default', groups)
+        texts.append(libfiles.render_library(groups, units=block, pres=pres))
+    for idx in rng.sample(range(len(REJECT)), 3):
+        label, block, body = REJECT[idx]
+        lines = []
+        if block:
+            lines.append('units:')
+            for k, v in block.items():
+                lines.append('    %s: %s' % (k, v))
+        lines.append("groups:\n    'C(H)4':\n        'thermochem':")
+        lines += ['            ' + ln for ln in body.strip('\n').split('\n')]
+        texts.append('\n'.join(lines) + '\n')
+    with libfiles.TempTree() as tree:
+        paths = [libfiles.write_library(tree, 'lib%d.yaml' % i, t)
+                 for i, t in enumerate(texts)]
+
+        def make_jobs():
+            def job(p):
+                return lambda: snapshot(libs.fresh(p))
+            return [(i, job(p)) for i, p in enumerate(paths)]
+        res = TH.stress(make_jobs, nthreads=4, rounds=rounds, watchdog=300)
+    nrej = sum(1 for o in res['baseline'].values() if o[0] == 'exc')
+    ctx.count('files_rejected_alone_in_thread_stress', nrej)
+    TH.judge(ctx, res, 'library Load', {'what': 'thread stress', 'key': key})
+
+
 def run_shard(ctx):
+    if ctx.shard % 4 == 0:
+        check_threads(ctx)
     n = 700 if ctx.tier == 'quick' else 6000
     for i in range(n):
         if ctx.mine(i):
@@ -412,6 +465,8 @@ def run_shard(ctx):
 
 
 def replay(ctx, case):
+    if case.get('what') == 'thread stress':
+        return check_threads(ctx, case['key'], rounds=10)
     if 'reject' in case:
         check_reject(ctx, case['reject'])
     else:
